@@ -12,6 +12,12 @@ Statements `Frag.okGS il rt` (`il`: inside a loop, `rt`: `return` allowed): `let
 namespace HmsProofs.Sim
 open Hms.Core Hms.Core.Comp
 
+/-- The builtin methods the fragment calls through a value (`Member m; …; Call_Val`); no object of the
+fragment has a data field of such a name. -/
+def methNames : List String := ["len", "push", "is_some", "is_none", "unwrap", "unwrap_or"]
+/-- The methods without arguments that may stand in expressions: they only read, never yield `null`. -/
+def meth0 : List String := ["len", "is_some", "is_none"]
+
 namespace Frag
 
 /-- Literals and local variables: evaluation cannot fail and has no effect. -/
@@ -44,7 +50,7 @@ def okGE : Expr → Bool
   | .matchE _ _ c arms (some d) => okGE c && okGArms arms && okGE d
   | .list _ _ xs => xs.all atomE
   | .obj _ _ fs => fs.all (fun f => atomE f.2) && decide ((fs.map (·.1)).Nodup) &&
-      fs.all (fun f => f.1 != "len" && f.1 != "push")
+      fs.all (fun f => !methNames.contains f.1)
   | _ => false
 /-- The arms of a `match`: literal patterns, bodies in the fragment. -/
 def okGArms : List (List Expr × Expr) → Bool
@@ -164,11 +170,11 @@ def okE (fr : Bool) : Expr → Bool
   | .ifE _ _ c t (some eb) => okE fr c && okEB fr t && okEB fr eb
   | .call _ _ (.ident _ _ name _ _ _) args false =>
     name != "throw" && name != "println" && okEArgs fr args && oneNonAtom args
-  | .call _ _ (.member _ _ b nm .dot) [] false => fr && nm == "len" && okE fr b
+  | .call _ _ (.member _ _ b nm .dot) [] false => fr && meth0.contains nm && okE fr b
   | .matchE _ _ c arms (some d) => okE fr c && okEArms fr arms && okE fr d
   | .list _ _ xs => xs.all atomE
   | .obj _ _ fs => fs.all (fun f => atomE f.2) && decide ((fs.map (·.1)).Nodup) &&
-      fs.all (fun f => f.1 != "len" && f.1 != "push")
+      fs.all (fun f => !methNames.contains f.1)
   | .index _ _ b i => fr && okE fr b && okE fr i && (!isRead b || (callsGE i).isEmpty)
   | .member _ _ b _ .dot => fr && okE fr b
   | _ => false
